@@ -56,6 +56,7 @@ func (x *world) checkC13w(label string) {
 	}
 	sort.Slice(ids, func(i, j int) bool { return ids[i].String() < ids[j].String() })
 	known := map[chainhash.Hash]knownRec{}
+	uncredited, nOwn := "", 0
 	sync := x.w.Manager.SyncedTo()
 	err := walletdb.View(x.w.Database(), func(tx walletdb.ReadTx) error {
 		ns := tx.ReadBucket(wtxmgrNS)
@@ -66,6 +67,26 @@ func (x *world) checkC13w(label string) {
 			}
 			if d == nil {
 				continue
+			}
+			// "Each credited output": an output that pays an address the
+			// wallet itself issued (before the payment was made — the
+			// workload pays issued addresses only) is a credited output.
+			if !x.hadCrash && uncredited == "" {
+				for oi, o := range d.MsgTx.TxOut {
+					if _, own := x.byScript[string(o.PkScript)]; !own {
+						continue
+					}
+					nOwn++
+					listed := false
+					for _, c := range d.Credits {
+						if int(c.Index) == oi {
+							listed = true
+						}
+					}
+					if !listed {
+						uncredited = fmt.Sprintf("output %d of %s (%d sat) pays %s, an address the wallet issued, and is not among the transaction's credits %v", oi, short(ids[i]), o.Value, x.issuedAddrs[x.byScript[string(o.PkScript)]].addr, d.Credits)
+					}
+				}
 			}
 			k := knownRec{hash: ids[i], height: d.Block.Height, block: d.Block.Hash, nCredits: len(d.Credits), nDebits: len(d.Debits)}
 			for _, db := range d.Debits {
@@ -83,6 +104,13 @@ func (x *world) checkC13w(label string) {
 		return
 	}
 	x.env.Count("probe.c13w-checked")
+	if nOwn > 0 {
+		x.env.Count("probe.c13w-own-outputs-checked")
+	}
+	if uncredited != "" {
+		x.fail("c13w:own-output-not-listed-as-credit", "%s: %s", label, uncredited)
+		return
+	}
 	maxH := int32(0)
 	nUnmined := 0
 	for _, k := range known {
